@@ -81,5 +81,27 @@ def fsets(xs):
         seen.add(key)
         out.append(i)
     return tuple(out)
+def guard_match(c, d):
+    match c:
+        case 1 if d > 2:
+            return 'one-big'
+        case 1:
+            return 'one'
+        case 2 | 3 if d == 0:
+            return 'few-zero'
+        case _:
+            return 'other'
+def set_update(xs, ys):
+    s = set(xs)
+    s.update(ys)
+    s.update(y + 1 for y in ys)
+    return tuple(sorted(s))
+def native_iter(xs):
+    out = []
+    for x in iter(()):
+        out.append(x)
+    for x in reversed(xs):
+        out.append(x)
+    return tuple(out)
 def sorted_key(xs):
     return tuple(sorted(xs, key=lambda v: (-v % 3, v)))
